@@ -1,7 +1,7 @@
 (** C13  std and no_std builds are observably equivalent (io part and codec part). *)
 From Coq Require Import List NArith PArith Bool.
 From Coq.Strings Require Import Byte.
-From Borsh Require Import Bytes Result Loop Ty Ser De Entry Io IoSamples IoProofsOps.
+From Borsh Require Import Bytes Result Loop Ty Ser De Entry Io IoSamples IoProofsOps IoForward.
 Import ListNotations.
 Local Open Scope N_scope.
 
@@ -51,3 +51,18 @@ Example C13_io_observable :
     Some (WriteAllErr WriteZero MWriteWhole); Some WroteAll],
    ([x01; x02; x03; x04], 0), [x07; x08], None).
 Proof. vm_compute. reflexivity. Qed.
+
+
+(** `by_ref` / `&mut W`: in [run_ops] the adaptor copies the record, so forwarding is true by construction there.  What it is
+    worth is stated on the functions: the overridden `write_all` of `&mut [u8]` and of `Vec<u8>` returns exactly what the
+    trait's default loop over `write` returns (the shim's loop and std's) - an adaptor that forwards `write_all` and one
+    that falls back to the default loop are the same writer. *)
+Theorem C13_write_all_overrides :
+  (forall (b : bytes) (st : fstate),
+     fwrite_all_shim b st = write_all_shim fwrite (fun _ => 0) b st /\
+     fwrite_all_shim b st = write_all_std fwrite (fun _ => 0) b st) /\
+  (forall (b v : bytes),
+     vwrite_all_shim b v = write_all_shim vwrite (fun _ => 0) b v /\
+     vwrite_all_shim b v = write_all_std vwrite (fun _ => 0) b v).
+Proof. exact (conj fixed_override_is_default_loop vec_override_is_default_loop). Qed.
+Print Assumptions C13_write_all_overrides.
